@@ -28,7 +28,8 @@ META = dict(
                "format. Trusted: BranchBuilder, sqlite3, bzrformats btree index, TLC.",
 )
 
-QNAME = {"git_sha": "lookup_git_sha", "blob_id": "lookup_blob_id", "tree_id": "lookup_tree_id", "commit": "lookup_commit",
+QNAME = {"start": "start_write_group", "commit": "commit_write_group", "abort": "abort_write_group",
+         "rev": "CacheUpdater.add_object/finish", "reopen": "open", "git_sha": "lookup_git_sha", "blob_id": "lookup_blob_id", "tree_id": "lookup_tree_id", "commit": "lookup_commit",
          "revids": "revids", "sha1s": "sha1s", "missing": "missing_revisions"}
 KLASS = {"dict": "DictGitShaMap", "sqlite": "SqliteGitShaMap", "index": "IndexGitShaMap", "index-disk": "IndexGitShaMap",
          "tdb": "TdbGitShaMap"}
@@ -281,7 +282,14 @@ def run_sequence(ctx, kinds, seq, srv_url, meta):
             for e in seq:
                 if e["k"] == "ask":
                     evs.extend(q_event(be, q, a) for q, a in e["qs"])
-                elif be.apply(e):
+                    continue
+                try:
+                    done = be.apply(e)
+                except Exception as ex:  # noqa - an update call that raises is an observation for TLC to judge
+                    evs.append({"k": "raised", "call": e["k"], "exc": type(ex).__name__})
+                    evs[-1]["msg"] = str(ex)[:80].replace('"', "'").replace("\\", "/")
+                    break
+                if done:
                     evs.append({k: v for k, v in e.items() if k != "raw"})
         finally:
             be.close()
@@ -590,6 +598,12 @@ def report(ctx, traces, verdicts):
         tr = traces[tid - 1]
         for l, q, cls, det in bad:
             e = tr["events"][l - 1]
+            if e["k"] == "raised":
+                ctx.violation(signature(tr["backend"], q, cls, det),
+                              "%s backend: %s raised %s (%s) where the abstract map accepts the call; rest of the sequence "
+                              "skipped (%s)" % (tr["backend"], QNAME.get(q, q), e["exc"], e.get("msg"), tr["meta"]),
+                              {"backend": tr["backend"], "event": l, "meta": tr["meta"], "events": tr["events"][:l]})
+                continue
             ctx.violation(signature(tr["backend"], q, cls, det),
                           "%s backend: %s(%s) answered %s, which is not Lookup(state) after the recorded updates (%s; %s)" % (
                               tr["backend"], QNAME.get(q, q), ", ".join(e["a"]), e["r"], cls, tr["meta"]),
